@@ -217,7 +217,9 @@ impl QpModel {
             let s = if lay.numbers == 0 {
                 format!("{:?}", v)
             } else {
-                match rng.below(6) {
+                match rng.below(8) {
+                    6 if v != 0.0 && v.abs() < 1.0 => format!("{}", v).replacen("0.", ".", 1),
+                    7 if v == v.trunc() && v.abs() < 1e15 => format!("{}.", v),
                     5 if v == 0.0 => (*rng.pick(&["-0", "-0.0", "-0e0", "+0"])).to_string(),
                     0 => format!("{}", v),
                     1 => format!("{:e}", v),
@@ -465,8 +467,17 @@ pub fn gen_model(rng: &mut Rng) -> QpModel {
     let okind = *rng.pick(&['L', 'D', 'C', 'Q']);
     let vkind = *rng.pick(&['C', 'B', 'M', 'I', 'G']);
     let ckind = *rng.pick(&['N', 'B', 'L', 'D', 'C', 'Q']);
-    let nvars = *rng.pick(&[1usize, 1, 2, 2, 3, 3, 4, 5]);
-    let ncons = if matches!(ckind, 'N' | 'B') { 0 } else { *rng.pick(&[0usize, 1, 1, 2, 2, 3, 4]) };
+    // mostly small (the statement's <= 5 variables, <= 4 constraints); now and then large enough for indices of
+    // two digits
+    let big = rng.chance(1, 25);
+    let nvars = if big { 9 + rng.usize(25) } else { *rng.pick(&[1usize, 1, 2, 2, 3, 3, 4, 5]) };
+    let ncons = if matches!(ckind, 'N' | 'B') {
+        0
+    } else if big {
+        5 + rng.usize(16)
+    } else {
+        *rng.pick(&[0usize, 1, 1, 2, 2, 3, 4])
+    };
     let infinity = *rng.pick(&[1e20, 1e20, 1e10, 1024.0, 8.0]);
     let mut q0 = vec![];
     for i in 0..nvars {
